@@ -13,4 +13,8 @@ CHECKS['C02'] = {
     'text': 'Bounded symbolic model checking of the real DocTest.run part loop, DoctestPart.check and checker.check_got_vs_want/check_output: for every list of k parts (k<=3 quick, <=5 thorough) with symbolic has-code / has-want / eval-mode and symbolic stdout, want and repr texts, the run fails exactly at the first want that matches neither a trailing portion of the pending output nor the value, the execution trace contains every earlier runnable part and no later one, exactly one of passed/failed/skipped holds and "nothing ran" is skipped. Decided for an UNINTERPRETED match relation (hence for the real one under every flag) and again with equality, where every counterexample is replayed end to end.',
     'note': 'Stubs: compile/exec/eval/CaptureStdout are harness stubs (the text of a part is not executed), normalize+_check_match abstracted (uninterpreted M / equality). Parser grouping of statements into parts is C13/C01, matching is C05/C06. Bounds: k parts, strings <=3 characters.',
 }
+CHECKS['C03'] = {
+    'text': 'Bounded symbolic model checking of the real exception path: (A) one call of checker.check_exception inside an except block - extract_exc_want with the real _EXCEPTION_RE executed by the symbolic regex engine, utils.codeblock, _strip_exception_details, check_output - for every exception line <module path><Name>[: message] and every want (free text or traceback block with header, optional stack lines and a final line built the same way) within the bounds: it returns iff the final line matches the exception line or, under IGNORE_EXCEPTION_DETAIL, the names match; otherwise GotWantException; a want that is not a traceback block re-raises the live exception object. (B) the real DocTest.run part loop with k parts, each raising or not, want none / free / traceback: the run fails at the first part the decision table rejects, with the raised exception object itself (non-traceback want or no want) or a GotWantException, for on_error return and raise, and after an expected exception the following parts run. Decided for an uninterpreted match relation and for "equal up to trailing whitespace" (replayed with real exceptions).',
+    'note': 'Stubs: compile/exec/CaptureStdout (harness), traceback.format_exception_only -> symbolic exception line of documented shape, textwrap.dedent -> identity under a checked precondition (model validated against CPython every run), normalize+_check_match abstracted (uninterpreted M / rstrip-equality). Assumptions: see evidence. Bounds: names <=2 chars, messages <=2..3 chars (any ASCII incl. colon, dot, newline), k<=2 parts quick / 3 thorough.',
+}
 NOT_APPLICABLE = {('C%02d' % i): _PENDING for i in range(1, 21)}
